@@ -280,7 +280,7 @@ def check_trend(case, ctx):
 # ---------------------------------------------------------------- checkerboard
 @st.composite
 def checker_cases(draw):
-    region = draw(gen.regions(max_exp=4))
+    region = draw(st.one_of(gen.regions(max_exp=4), gen.regions(max_exp=4), st.just([0.0, 5000.0, -5000.0, 0.0])))  # the last one is the documented default region
     n = draw(st.integers(1, 12))
     pts = [[draw(gen.finite(region[0] - 10, region[1] + 10)), draw(gen.finite(region[2] - 10, region[3] + 10))] for _ in range(n)]
     return dict(region=region, amplitude=draw(st.one_of(st.none(), gen.finite(-1e3, 1e3), st.integers(1, 100).map(float))),
